@@ -269,9 +269,15 @@ func c12ReqScopeGen(reg []string) *rapid.Generator[string] {
 	return rapid.Custom(func(t *rapid.T) string {
 		if len(reg) > 0 && rapid.IntRange(0, 9).Draw(t, "fromReg") < 7 {
 			base := reg[rapid.IntRange(0, len(reg)-1).Draw(t, "which")]
-			switch rapid.IntRange(0, 4).Draw(t, "edit") {
+			switch rapid.IntRange(0, 5).Draw(t, "edit") {
 			case 0:
 				return base
+			case 5:
+				// scope values are case sensitive under every strategy (RFC 6749 3.3)
+				if rapid.Bool().Draw(t, "wholeUpper") {
+					return strings.ToUpper(base)
+				}
+				return strings.ToUpper(base[:1]) + base[1:]
 			case 1:
 				return base + "." + rapid.SampledFrom([]string{"x", "b", "*"}).Draw(t, "child")
 			case 2:
